@@ -20,23 +20,10 @@
   to the state of that fold over the items recorded so far (`C07.Core`) and the tie is carried through every
   step and through the mutual recursion over the template (`C07.presG_walkL`).
 -/
-import BufrModel.Lemmas.LinkSpecComp
+import BufrModel.Lemmas.LinkSpecOut
 import BufrModel.Props.C07Subsets
 namespace Bufr
 open Bufr.C07
-
-/-- what `decodeSubset` reports, in terms of the final state of the walk -/
-theorem decodeSubset_items (t : List Desc) (bits : Bits) (o : SubsetOut) (rest : Bits)
-    (h : decodeSubset t bits = .ok (o, rest)) :
-    ∃ s, walkList decPrimsU t { bits := bits, vals := [[]] } = .ok s ∧ o.descs = s.descs.reverse ∧
-      o.vals = (s.vals.headD []).reverse ∧ o.links = s.links.reverse := by
-  unfold decodeSubset at h
-  cases hw : walkList decPrimsU t { bits := bits, vals := [[]] } with
-  | error e => rw [hw] at h; cases h
-  | ok s =>
-    rw [hw] at h
-    cases h
-    exact ⟨s, rfl, rfl, rfl, rfl⟩
 
 /-- THE HEADLINE, one subset: the links recorded by the decoder's walk of a `WFlinks` template are
     `Spec.links` of the reported items, with the cancel times of the run. -/
